@@ -96,8 +96,23 @@ fn check_inner(sub: &str, gm: &G, toks: &[char], l: &mut Local) -> CaseRes {
 }
 
 pub fn check_case(case: &Case, l: &mut Local) -> Result<(), Fail> {
-    if case.sub.starts_with("static") || case.sub.starts_with("leftrec") {
+    if case.sub.starts_with("static") {
+        let want = case.extra.get("template").and_then(|x| x.as_str()).unwrap_or("");
+        for (name, memo, plain) in static_templates(&case.input) {
+            l.evals += 2;
+            if name == want && memo != plain {
+                let sig = if name.starts_with("KF-a") { format!("C11/memo-key-aliasing/{}", &name[5..]) } else { "C11/static".to_string() };
+                return Err(Fail::new(sig, format!("static template {}: memoized {:?} but plain {:?}", name, memo, plain)));
+            }
+        }
         return Ok(());
+    }
+    if case.sub.starts_with("leftrec") {
+        return match crate::worker::run_child(&["leftrec", "6", "2000", "1"], 120, 4_000_000) {
+            crate::worker::ChildResult::Ok(_) => Ok(()),
+            crate::worker::ChildResult::Violation(m) => Err(Fail::new("C11/left-recursion", m)),
+            crate::worker::ChildResult::Inconclusive(m) => Err(Fail::new("C11/inconclusive", m)),
+        };
     }
     check_inner(&case.sub, &case.g, &case.toks(), l).map_err(|(_, f)| f)
 }
